@@ -107,7 +107,7 @@ func checkC10(c *core.Ctx) {
 	}
 	nschemas, ndocs, nproc, nbadSchemas := 2, 80, 3, 40
 	if c.Thorough() {
-		nschemas, ndocs, nproc, nbadSchemas = 10, 300, 8, 400
+		nschemas, ndocs, nproc, nbadSchemas = 25, 400, 8, 1500
 	}
 	rng := rand.New(rand.NewSource(c.Seed*86028157 + 10))
 	tg := &TGen{R: rng}
